@@ -44,8 +44,32 @@ pub fn run(ctx: &Ctx, rep: &mut Report) {
         let dopts = DictOpts { max_entries: 30, loose_compounds: false, ..DictOpts::default() };
         let world = match guard(|| {
             let matrix = crate::dictgen::gen_matrix(&mut rng, &dopts);
-            let sys = crate::dictgen::gen_system(&mut rng, &dopts, &matrix);
-            let mut p = PluginOpts::random(&mut rng, &matrix, false);
+            let mut sys = crate::dictgen::gen_system(&mut rng, &dopts, &matrix);
+            // every fourth world has the path-rewrite plugins: a token they create declares no splits and stays whole in
+            // every mode, also when its first part is a numeral compound with declared units
+            let pr = wi % 4 == 3;
+            if pr {
+                let pool = crate::dictgen::pos_pool();
+                let nid = matrix.nid() as i64;
+                let base = sys.entries.len();
+                for k in ["1", "2", "0", "三", "百"] {
+                    sys.entries.push(crate::model::Entry::simple(k, rng.range(0, nid - 1) as i16, rng.range(0, nid - 1) as i16, rng.range(0, 2000) as i16, &pool[1]));
+                }
+                for (key, a, b) in [("12", 0usize, 1usize), ("20", 1, 2), ("三百", 3, 4)] {
+                    let mut e = crate::model::Entry::simple(key, rng.range(0, nid - 1) as i16, rng.range(0, nid - 1) as i16, rng.range(-3000, -1000) as i16, &pool[1]);
+                    e.mode = "C";
+                    let units = vec![Ref { dic: 0, row: base + a, inline: false }, Ref { dic: 0, row: base + b, inline: false }];
+                    e.split_a = units.clone();
+                    if rng.chance(1, 2) {
+                        e.split_b = units;
+                    }
+                    sys.entries.push(e);
+                }
+            }
+            let mut p = PluginOpts::random(&mut rng, &matrix, pr);
+            if pr {
+                p.join_numeric = Some(rng.chance(1, 2));
+            }
             p.n_users = *rng.pick(&[0usize, 1, 2, 3, 4]);
             crate::scen::build_world_from(&mut rng, &dopts, matrix, sys, p, Place::Owned)
         }) {
@@ -71,8 +95,9 @@ pub fn run(ctx: &Ctx, rep: &mut Report) {
         let mut tc = Tok::new(&world.dict, Mode::C);
         // half of the worlds reach modes A/B the way the Python binding does: a tokenizer created in mode C,
         // a field request that does not mention the split fields, then set_mode
-        let via_subset = wi % 2 == 1;
-        let sub_bits = (rng.next() as u32) & 0x3ff & !(0xc2);
+        let via_subset = wi % 2 == 1 && wi % 8 != 3;
+        // (with path-rewrite plugins the request keeps the fields those plugins read: surface, POS, normalised form)
+        let sub_bits = ((rng.next() as u32) & 0x3ff & !(0xc2)) | if world.plugins.join_numeric.is_some() || world.plugins.join_katakana.is_some() { 0x00d } else { 0 };
         let make = |m: Mode| {
             if via_subset {
                 let mut t = Tok::new(&world.dict, Mode::C);
@@ -90,8 +115,17 @@ pub fn run(ctx: &Ctx, rep: &mut Report) {
         }
         // an output list recycled from earlier sentences, and fresh ones
         let mut recycled = MorphemeList::empty(&world.dict);
+        // ... and one that is not cleared between calls (the split API appends)
+        let mut accum = MorphemeList::empty(&world.dict);
+        let pr = world.plugins.join_numeric.is_some();
+        if pr {
+            rep.count("worlds_with_path_rewrite_plugins", 1);
+        }
         for ti in 0..50 {
             let mut text = String::new();
+            if pr && rng.chance(1, 2) {
+                text.push_str(rng.s(&["123", "1205", "2012", "三百12", "200", "12", "三百", "0120"]));
+            }
             for _ in 0..1 + rng.below(5) {
                 if !compound_keys.is_empty() && rng.chance(2, 3) {
                     let k = rng.pick(&compound_keys).clone();
@@ -194,6 +228,36 @@ pub fn run(ctx: &Ctx, rep: &mut Report) {
                     }
                     // on-demand split of the C morpheme
                     let declared = expected_units(&world, c.word_id, mode).map(|u| u.len()).unwrap_or(0);
+                    if declared != 1 {
+                        // into a list that already holds morphemes: units are appended, and a word without units reports "not split"
+                        if accum.len() == 0 || accum.len() > 200 {
+                            accum.clear();
+                            tc.list.copy_slice(0, 1, &mut accum);
+                        }
+                        let before = accum.len();
+                        match guard(|| tc.list.split_into(mode, ci, &mut accum)) {
+                            Ok(Ok(flag)) => {
+                                let added = accum.len() - before;
+                                rep.count("on_demand_splits_into_nonempty_lists", 1);
+                                let ok = if declared >= 2 { flag && added == declared } else { !flag && added == 0 };
+                                if !ok {
+                                    rep.violation("split_api_differs", "split_into", &format!("mode {}: {:?} declares {} units; split_into into a list that already held {} morphemes returns {} and appends {}", mode_name(mode), c.surface, declared, before, flag, added), "", scen("non-empty output list"));
+                                    failed = true;
+                                    break;
+                                }
+                            }
+                            Ok(Err(e)) => {
+                                rep.violation("split_into_error", "split_into", &format!("{:?}", e), "", scen("non-empty output list"));
+                                failed = true;
+                                break;
+                            }
+                            Err(p) => {
+                                rep.violation("split_into_panic", &p.site, &p.msg, "", scen("non-empty output list"));
+                                failed = true;
+                                break;
+                            }
+                        }
+                    }
                     if declared != 1 {
                         let fresh_out = rng.chance(1, 2);
                         let res = guard(|| {
